@@ -76,7 +76,7 @@ Proof.
   induction l as [|[k v] l IH]; cbn; intros H; [reflexivity|].
   destruct (N.eqb_spec k p); cbn; [exfalso; apply H; auto|]. apply IH. tauto.
 Qed.
-Lemma cnt_partition x (p : N) (l : list (N * pmsg)) :
+Lemma cnt_partition x (p : pid) (l : list (pid * pmsg)) :
   cnt x (map snd l) = cnt x (map snd (filter (fun y => N.eqb (fst y) p) l)) +
                       cnt x (map snd (filter (fun y => negb (N.eqb (fst y) p)) l)).
 Proof.
@@ -137,6 +137,7 @@ Definition op_ok (s : push) (o : pop) : Prop :=
   | PPipeStart p _ => ~ In p (map fst (ps_sending s)) /\ ~ In p (ps_pl s)
   | PSendDone p _ => In p (map fst (ps_sending s))
   | PSend _ a _ _ => ~ In a (map fst (ps_aq s))
+  | PCancel _ rv => rv <> 0%N
   | _ => True
   end.
 
@@ -178,4 +179,339 @@ Proof.
     + rewrite app_length. cbn. lia.
     + constructor; auto.
     + inversion I4; auto.
+Qed.
+
+Lemma accepted_nil_other s o outs :
+  (forall a rv m, ~ In (Complete a rv m) outs) -> accepted s o outs = [].
+Proof.
+  induction outs as [|x r IH]; cbn; intros H; [reflexivity|].
+  destruct x; try (apply IH; intros a0 rv0 m0 Hin; eapply H; right; eauto).
+  exfalso. eapply H. left. reflexivity.
+Qed.
+
+Lemma accepted_fail s o rv l : rv <> 0%N -> accepted s o (fail_aios rv l) = [].
+Proof.
+  intros Hrv. induction l as [|a l IH]; cbn; [reflexivity|].
+  destruct (N.eqb_spec rv 0); [contradiction|]. cbn. exact IH.
+Qed.
+
+Lemma accepted_app s o a b : accepted s o (a ++ b) = accepted s o a ++ accepted s o b.
+Proof. induction a as [|x a IH]; cbn; [reflexivity|]. destruct x; rewrite ?IH, ?app_assoc; auto. Qed.
+Lemma accepted_map_Free s o l : accepted s o (map Free l) = [].
+Proof. induction l; cbn; auto. Qed.
+
+Lemma nodup_snoc {A} (l : list A) (a : A) : NoDup l -> ~ In a l -> NoDup (l ++ [a]).
+Proof.
+  induction l as [|q l IH]; cbn; intros H Ha.
+  - constructor; [tauto|constructor].
+  - inversion H; subst. constructor.
+    + intros Hin. apply in_app_or in Hin as [Hin|[<-|[]]]; [auto|]. apply Ha. now left.
+    + apply IH; auto.
+Qed.
+
+Ltac pinv6 := unfold PInv, aq_nodup in *; split; [|split; [|split; [|split; [|split]]]].
+Ltac simp_p := cbn [ps_pl ps_wq ps_cap ps_aq ps_sending ps_writable] in *.
+
+Lemma law_PSend s c a nb m s' outs :
+  PInv s -> ~ In a (map fst (ps_aq s)) -> push_step s (PSend c a nb m) = (s', outs) ->
+  PInv s' /\ forall x, cnt x (owned s ++ accepted s (PSend c a nb m) outs) = cnt x (owned s' ++ freed outs).
+Proof.
+  intros HI Hok H. pose proof HI as (I1 & I2 & I3 & I4 & I5 & I6). cbn [push_step] in H.
+  destruct (ps_pl s) as [|p rest] eqn:PL.
+  - destruct (wq_full s) eqn:F; cbn [negb] in H.
+    + destruct nb; inversion H; subst; clear H.
+      * split; [exact HI|]. intros x. cbn [accepted freed]. change (E_AGAIN =? 0)%N with false. cbn iota. cnt_simp. lia.
+      * split.
+        -- unfold PInv, aq_nodup in *. simp_p. rewrite PL in *.
+           repeat split; auto; try tauto. rewrite map_app. cbn [map fst]. now apply nodup_snoc.
+        -- intros x. unfold owned, held. cbn [accepted freed]. simp_p. cnt_simp. lia.
+    + inversion H; subst; clear H. unfold wq_full in F. apply Nat.leb_gt in F. split.
+      * unfold PInv, aq_nodup in *. simp_p. rewrite PL in *.
+        repeat split; auto; try tauto. rewrite app_length. cbn. lia.
+      * intros x. unfold owned, held. cbn [accepted freed]. simp_p. change (E_OK =? 0)%N with true. cbn iota. rewrite N.eqb_refl. cnt_simp. lia.
+  - destruct I1 as [W A]; [congruence|]. inversion H; subst; clear H.
+    assert (Hp: ~ In p (map fst (ps_sending s))) by (apply I5; try rewrite PL; now left).
+    split.
+    + unfold PInv, aq_nodup in *. simp_p. unfold set_sending.
+      rewrite (filter_keep_notin p _ Hp). cbn [map fst]. rewrite PL in *. inversion I6; subst.
+      repeat split; auto.
+      * constructor; auto.
+      * intros q Hq [<-|Hin]; [contradiction|]. eapply I5; eauto. now right.
+    + intros x. unfold owned, held. cbn [accepted freed]. simp_p. change (E_OK =? 0)%N with true. cbn iota. rewrite N.eqb_refl. unfold set_sending. rewrite (filter_keep_notin p _ Hp).
+      cbn [map snd]. cnt_simp. lia.
+Qed.
+
+Lemma law_ready_op s p o s' outs :
+  (forall c a nb m, o <> PSend c a nb m) ->
+  PInv s -> ~ In p (map fst (ps_sending s)) -> ~ In p (ps_pl s) ->
+  push_pipe_ready s p = (s', outs) ->
+  PInv s' /\ forall x, cnt x (owned s ++ accepted s o outs) = cnt x (owned s' ++ freed outs).
+Proof.
+  intros Ho HI Hp Hpl H. split; [eapply ready_inv; eauto|]. intros x.
+  destruct HI as (_ & _ & _ & I4 & _).
+  destruct (ready_law s p o s' outs x Ho Hp I4 H) as (L & F & _). rewrite F. cnt_simp. rewrite <- L. cnt_simp. lia.
+Qed.
+
+(* a message a peer sent to the pusher: received and discarded in the same step *)
+Definition arrived (o : pop) : list pmsg :=
+  match o with PRecvDone _ rv m => if N.eqb rv 0 then [m] else [] | _ => [] end.
+
+Theorem push_step_law s o s' outs :
+  PInv s -> op_ok s o -> push_step s o = (s', outs) ->
+  PInv s' /\ forall x, cnt x (owned s ++ accepted s o outs ++ arrived o) = cnt x (owned s' ++ wire s o ++ freed outs).
+Proof.
+  intros HI Hok H. pose proof HI as (I1 & I2 & I3 & I4 & I5 & I6).
+  destruct o as [c a nb m|c a nb|a rv|p peer|p|p rv|p rv m| c op|c|c| |now]; cbn [op_ok wire arrived] in *.
+  - (* PSend *) destruct (law_PSend _ _ _ _ _ _ _ HI Hok H) as [A B]. split; [exact A|].
+    intros x. specialize (B x). cnt_simp. lia.
+  - (* PRecv *) cbn [push_step] in H. inversion H; subst. split; [exact HI|]. intros x. cbn [accepted freed].
+    change (E_NOTSUP =? 0)%N with false. cbn iota. cnt_simp. lia.
+  - (* PCancel *)
+    cbn [push_step] in H. destruct (has_aio a (ps_aq s)) eqn:E; inversion H; subst; clear H.
+    + split.
+      * unfold remove_aio. pinv6; simp_p; auto.
+        -- intros Hne. destruct (I1 Hne) as [W A]. split; auto. rewrite A. reflexivity.
+        -- now apply nodup_filter_keys.
+      * intros x. unfold owned, held. cbn [accepted freed]. simp_p.
+        destruct (N.eqb_spec rv 0); [contradiction|]. cnt_simp. lia.
+    + split; [exact HI|]. intros x. cbn [accepted freed]. cnt_simp. lia.
+  - (* PPipeStart *)
+    cbn [push_step] in H. destruct (negb (peer =? PROTO_PULL)%N).
+    + inversion H; subst. split; [exact HI|]. intros x. cbn [accepted freed]. cnt_simp. lia.
+    + destruct (push_pipe_ready s p) as [s1 o1] eqn:R. inversion H; subst; clear H.
+      destruct Hok as [Hp Hpl].
+      destruct (law_ready_op s p (PPipeStart p peer) s' o1 ltac:(intros; discriminate) HI Hp Hpl R) as [A B].
+      split; [exact A|]. intros x. specialize (B x). cbn [accepted freed]. cnt_simp. lia.
+  - (* PPipeClose *)
+    cbn [push_step] in H. destruct (has_id p (ps_pl s)) eqn:E; inversion H; subst; clear H.
+    + split.
+      * pinv6; simp_p; auto.
+        -- intros Hne. apply I1. intros E0. rewrite E0 in Hne. apply Hne. reflexivity.
+        -- intros q Hq. apply remove_id_in in Hq as [Hq _]. auto.
+        -- now apply remove_id_nodup.
+      * intros x. unfold owned, held. cbn [accepted freed]. simp_p. cnt_simp. lia.
+    + split; [exact HI|]. intros x. cbn [accepted freed]. cnt_simp. lia.
+  - (* PSendDone *)
+    cbn [push_step] in H. destruct (N.eqb_spec rv 0) as [->|Hrv]; cbn [negb] in H.
+    + (* success: the transport consumed the message; the pipe is ready again *)
+      set (s0 := mkPush (ps_pl s) (ps_wq s) (ps_cap s) (ps_aq s) (set_sending s p None) (ps_writable s)) in *.
+      assert (HI0: PInv s0).
+      { unfold s0, set_sending. pinv6; simp_p; auto.
+        - now apply nodup_filter_keys.
+        - intros q Hq Hin. eapply I5; eauto. eapply in_filter_keys; eauto. }
+      assert (Hp0: ~ In p (map fst (ps_sending s0))) by (unfold s0, set_sending; simp_p; apply notin_filter_self).
+      assert (Hpl0: ~ In p (ps_pl s0)) by (unfold s0; simp_p; intros Hin; eapply I5; eauto).
+      destruct (law_ready_op s0 p (PSendDone p 0) s' outs ltac:(intros; discriminate) HI0 Hp0 Hpl0 H) as [A B].
+      split; [exact A|]. intros x.
+      assert (EA: accepted s (PSendDone p 0) outs = accepted s0 (PSendDone p 0) outs).
+      { clear. induction outs as [|y r IH]; cbn; [reflexivity|]. destruct y; rewrite ?IH; reflexivity. }
+      rewrite EA. specialize (B x). unfold owned, held in *. unfold s0 at 1 2 in B. simp_p. unfold set_sending in B.
+      pose proof (cnt_partition x p (ps_sending s)) as P. cnt_simp. lia.
+    + (* failure: the message is freed, the pipe closed *)
+      inversion H; subst; clear H. split.
+      * unfold set_sending. pinv6; simp_p; auto.
+        -- now apply nodup_filter_keys.
+        -- intros q Hq Hin. eapply I5; eauto. eapply in_filter_keys; eauto.
+      * intros x. unfold owned, held. rewrite accepted_app, accepted_map_Free. cbn [accepted].
+        rewrite freed_app, freed_map_Free. cbn [freed]. simp_p. unfold set_sending.
+        pose proof (cnt_partition x p (ps_sending s)) as P. cnt_simp. lia.
+  - (* PRecvDone *)
+    cbn [push_step] in H. destruct (rv =? 0)%N; cbn [negb] in H; inversion H; subst; clear H.
+    + split; [exact HI|]. intros x. cbn [accepted freed]. cnt_simp. lia.
+    + split; [exact HI|]. intros x. cbn [accepted freed]. cnt_simp. lia.
+  - (* PSetOpt *)
+    cbn [push_step] in H. destruct op; try (inversion H; subst; split; [exact HI|]; intros x; cbn [accepted freed]; cnt_simp; lia).
+    destruct (8192 <? N.of_nat n)%N; [inversion H; subst; split; [exact HI|]; intros x; cbn [accepted freed]; cnt_simp; lia|].
+    inversion H; subst; clear H. split.
+    + pinv6; simp_p; auto.
+      * intros Hne. destruct (I1 Hne) as [W A]. rewrite W. now rewrite firstn_nil.
+      * rewrite firstn_length. lia.
+    + intros x. unfold owned, held. rewrite accepted_app, accepted_map_Free. cbn [accepted].
+      rewrite freed_app, freed_map_Free. cbn [freed]. simp_p.
+      rewrite <- (firstn_skipn n (ps_wq s)) at 1. cnt_simp. lia.
+  - inversion H; subst. split; [exact HI|]. intros x. cbn [accepted freed]. cnt_simp. lia.
+  - inversion H; subst. split; [exact HI|]. intros x. cbn [accepted freed]. cnt_simp. lia.
+  - (* PSockClose *)
+    cbn [push_step] in H. inversion H; subst; clear H. split.
+    + pinv6; simp_p; auto.
+      * intros Hne. destruct (I1 Hne) as [W A]. auto.
+      * constructor.
+    + intros x. unfold owned, held. rewrite accepted_fail by discriminate. rewrite freed_fail. simp_p. cnt_simp. lia.
+  - inversion H; subst. split; [exact HI|]. intros x. cbn [accepted freed]. cnt_simp. lia.
+Qed.
+
+(* ---- the send descriptor mirrors "a non-blocking send would be accepted" ---- *)
+Definition can_accept (s : push) : bool :=
+  negb (match ps_pl s with [] => true | _ => false end) || negb (wq_full s).
+Definition WInv (s : push) : Prop := ps_writable s = can_accept s.
+
+Lemma ready_winv s p s' outs : PInv s -> WInv s -> push_pipe_ready s p = (s', outs) -> WInv s'.
+Proof.
+  intros (I1 & I2 & _) W H. unfold push_pipe_ready in H. unfold WInv, can_accept, wq_full in *.
+  destruct (ps_wq s) as [|m rest] eqn:EW; destruct (ps_aq s) as [|[a m2] aqr] eqn:EA;
+    inversion H; subst; clear H; simp_p; cbn [length] in *.
+  - destruct (ps_pl s) eqn:PL; cbn [app]; destruct (ps_cap s <=? 0) eqn:C; cbn in *; auto.
+  - assert (PL: ps_pl s = []). { destruct (ps_pl s) eqn:E; auto. destruct I1 as [_ F]; [congruence|discriminate]. }
+    rewrite PL in *. destruct (ps_cap s <=? 0) eqn:C; cbn in *; auto.
+  - assert (PL: ps_pl s = []). { destruct (ps_pl s) eqn:E; auto. destruct I1 as [F _]; [congruence|discriminate]. }
+    rewrite PL in *. cbn [negb orb andb] in *.
+    destruct (ps_cap s <=? S (length rest)) eqn:C1; destruct (ps_cap s <=? length rest) eqn:C2; cbn in *; auto.
+    apply Nat.leb_le in C2. apply Nat.leb_gt in C1. lia.
+  - assert (PL: ps_pl s = []). { destruct (ps_pl s) eqn:E; auto. destruct I1 as [F _]; [congruence|discriminate]. }
+    rewrite PL in *. cbn [negb orb andb] in *. rewrite app_length. cbn [length].
+    replace (length rest + 1) with (S (length rest)) by lia.
+    destruct (ps_cap s <=? S (length rest)) eqn:C1; cbn in *; auto.
+Qed.
+
+Theorem push_writable_mirror s o s' outs :
+  PInv s -> WInv s -> push_step s o = (s', outs) -> WInv s'.
+Proof.
+  intros HI W H. pose proof HI as (I1 & I2 & _).
+  destruct o as [c a nb m|c a nb|a rv|p peer|p|p rv|p rv m| c op|c|c| |now]; cbn [push_step] in H;
+    try (inversion H; subst; exact W).
+  - destruct (ps_pl s) as [|p rest] eqn:PL.
+    + destruct (wq_full s) eqn:F; cbn [negb] in H.
+      * destruct nb; inversion H; subst; clear H; unfold WInv, can_accept, wq_full in *; simp_p; rewrite ?PL in *; auto.
+      * inversion H; subst; clear H. unfold WInv, can_accept, wq_full in *. simp_p. rewrite ?PL in *. cbn [negb orb] in *.
+        destruct (ps_cap s <=? length (ps_wq s ++ [m])); auto. rewrite W, F. reflexivity.
+    + inversion H; subst; clear H. unfold WInv, can_accept, wq_full in *. simp_p. rewrite ?PL in *.
+      destruct rest; cbn [negb orb andb] in *; destruct (ps_cap s <=? length (ps_wq s)); cbn in *; auto.
+  - destruct (has_aio a (ps_aq s)); inversion H; subst; auto.
+  - destruct (negb (peer =? PROTO_PULL)%N); [inversion H; subst; exact W|].
+    destruct (push_pipe_ready s p) as [s1 o1] eqn:R. inversion H; subst. eapply ready_winv; eauto.
+  - destruct (has_id p (ps_pl s)) eqn:E; inversion H; subst; clear H; [|exact W].
+    unfold WInv, can_accept, wq_full in *. simp_p.
+    destruct (remove_id p (ps_pl s)) eqn:R; cbn [negb orb andb] in *.
+    + destruct (ps_cap s <=? length (ps_wq s)); cbn; auto. rewrite W. apply orb_true_r.
+    + (* some pipe is still ready, so the descriptor was raised and stays so *)
+      assert (ps_pl s <> []) by (intros E0; rewrite E0 in R; discriminate).
+      destruct (ps_pl s); [congruence|]. cbn in W. exact W.
+  - destruct (negb (rv =? 0)%N).
+    + inversion H; subst. unfold WInv, can_accept, wq_full in *. simp_p. exact W.
+    + set (s0 := mkPush (ps_pl s) (ps_wq s) (ps_cap s) (ps_aq s) (set_sending s p None) (ps_writable s)) in *.
+      eapply (ready_winv s0); eauto.
+      destruct HI as (A & B & C & D & E & F). unfold s0, set_sending. pinv6; simp_p; auto.
+      * now apply nodup_filter_keys.
+      * intros q Hq Hin. eapply E; eauto. eapply in_filter_keys; eauto.
+  - destruct (negb (rv =? 0)%N); inversion H; subst; exact W.
+  - destruct op; try (inversion H; subst; exact W).
+    destruct (8192 <? N.of_nat n)%N; inversion H; subst; clear H; [exact W|].
+    unfold WInv, can_accept, wq_full in *. simp_p.
+    destruct (n <=? length (firstn n (ps_wq s))) eqn:C; cbn [negb orb] in *.
+    + destruct (ps_pl s) eqn:PL; cbn in *; auto.
+    + destruct (ps_pl s); reflexivity.
+Qed.
+
+(* ---- non-blocking send: completes in the same step, EAGAIN exactly when the
+        blocking form would have been queued, message left with the caller ---- *)
+Theorem push_nb_immediate s c a m s' outs :
+  push_step s (PSend c a true m) = (s', outs) ->
+  exists rv rest, outs = Complete a rv None :: rest /\ ps_aq s' = ps_aq s /\
+    (rv = E_AGAIN <-> can_accept s = false) /\ (rv = E_AGAIN -> s' = s /\ rest = []) /\
+    (rv <> E_AGAIN -> rv = E_OK).
+Proof.
+  intros H. cbn [push_step] in H. unfold can_accept.
+  destruct (ps_pl s) as [|p rest] eqn:PL.
+  - destruct (wq_full s) eqn:F; cbn [negb orb] in *; inversion H; subst; clear H; simp_p.
+    + exists E_AGAIN, []. repeat split; auto; congruence.
+    + exists E_OK, []. repeat split; auto; try discriminate.
+  - inversion H; subst; clear H; simp_p. cbn [negb orb].
+    exists E_OK, [TranSend p m]. repeat split; auto; try discriminate.
+Qed.
+
+(* blocking send with no room: queued, nothing completes, nothing is transmitted or dropped *)
+Theorem push_backpressure s c a m :
+  can_accept s = false ->
+  push_step s (PSend c a false m) = (mkPush (ps_pl s) (ps_wq s) (ps_cap s) (ps_aq s ++ [(a, m)]) (ps_sending s) (ps_writable s), []).
+Proof.
+  unfold can_accept. intros H. cbn [push_step]. destruct (ps_pl s); cbn in H; [|discriminate].
+  destruct (wq_full s); cbn in *; [reflexivity|discriminate].
+Qed.
+
+(* ---- FIFO hand-off: messages reach the transport in the order they were accepted ---- *)
+Theorem push_order_law s o s' outs :
+  PInv s -> op_ok s o -> (forall c op, o <> PSetOpt c op) ->
+  push_step s o = (s', outs) ->
+  ps_wq s ++ accepted s o outs = txs outs ++ ps_wq s'.
+Proof.
+  intros HI Hok Hns H. pose proof HI as (I1 & I2 & I3 & I4 & I5 & I6).
+  assert (READY: forall s p o s' outs, (forall c a nb m, o <> PSend c a nb m) -> aq_nodup s ->
+            push_pipe_ready s p = (s', outs) -> ps_wq s ++ accepted s o outs = txs outs ++ ps_wq s').
+  { clear. intros s p o s' outs Ho Hnd H. unfold push_pipe_ready in H.
+    destruct (ps_wq s) as [|m rest] eqn:EW; destruct (ps_aq s) as [|[a m2] aqr] eqn:EA;
+      inversion H; subst; clear H; simp_p; cbn [accepted txs app]; auto; try (rewrite ?app_nil_r; reflexivity).
+    - assert (L: lookup_aq a (ps_aq s) = [m2]).
+      { rewrite EA. apply lookup_head_nodup. unfold aq_nodup in Hnd. now rewrite EA in Hnd. }
+      destruct o; try (exfalso; eapply Ho; reflexivity); change (E_OK =? 0)%N with true; cbn iota; rewrite L; reflexivity.
+    - assert (L: lookup_aq a (ps_aq s) = [m2]).
+      { rewrite EA. apply lookup_head_nodup. unfold aq_nodup in Hnd. now rewrite EA in Hnd. }
+      destruct o; try (exfalso; eapply Ho; reflexivity); change (E_OK =? 0)%N with true; cbn iota; rewrite L;
+        cbn [app]; rewrite ?app_nil_r; reflexivity. }
+  destruct o as [c a nb m|c a nb|a rv|p peer|p|p rv|p rv m| c op|c|c| |now]; cbn [push_step op_ok] in *.
+  - destruct (ps_pl s) as [|p rest] eqn:PL.
+    + destruct (wq_full s) eqn:F; cbn [negb] in H.
+      * destruct nb; inversion H; subst; simp_p; cbn [accepted txs]; change (E_AGAIN =? 0)%N with false; cbn iota; now rewrite ?app_nil_r.
+      * inversion H; subst; simp_p. cbn [accepted txs]. change (E_OK =? 0)%N with true. cbn iota. now rewrite N.eqb_refl, app_nil_r.
+    + destruct I1 as [W A]; [congruence|]. inversion H; subst; simp_p. cbn [accepted txs].
+      change (E_OK =? 0)%N with true. cbn iota. rewrite N.eqb_refl, W. reflexivity.
+  - inversion H; subst. cbn [accepted txs]. change (E_NOTSUP =? 0)%N with false. cbn iota. now rewrite app_nil_r.
+  - destruct (has_aio a (ps_aq s)); inversion H; subst; simp_p; cbn [accepted txs]; rewrite ?app_nil_r; auto.
+    destruct (N.eqb_spec rv 0); [contradiction|]. now rewrite app_nil_r.
+  - destruct (negb (peer =? PROTO_PULL)%N); [inversion H; subst; cbn; now rewrite app_nil_r|].
+    destruct (push_pipe_ready s p) as [s1 o1] eqn:R. inversion H; subst. cbn [accepted txs].
+    eapply READY; eauto. intros; discriminate.
+  - destruct (has_id p (ps_pl s)); inversion H; subst; simp_p; cbn; now rewrite app_nil_r.
+  - destruct (N.eqb_spec rv 0) as [->|Hrv]; cbn [negb] in H.
+    + set (s0 := mkPush (ps_pl s) (ps_wq s) (ps_cap s) (ps_aq s) (set_sending s p None) (ps_writable s)) in *.
+      assert (EA: accepted s (PSendDone p 0) outs = accepted s0 (PSendDone p 0) outs).
+      { clear. induction outs as [|y r IH]; cbn; [reflexivity|]. destruct y; rewrite ?IH; reflexivity. }
+      rewrite EA. change (ps_wq s) with (ps_wq s0). eapply READY; eauto. intros; discriminate.
+    + inversion H; subst; simp_p. rewrite accepted_app, accepted_map_Free, txs_app, txs_map_Free. cbn. now rewrite app_nil_r.
+  - destruct (negb (rv =? 0)%N); inversion H; subst; cbn; now rewrite app_nil_r.
+  - exfalso. eapply Hns. reflexivity.
+  - inversion H; subst. cbn. now rewrite app_nil_r.
+  - inversion H; subst. cbn. now rewrite app_nil_r.
+  - inversion H; subst; simp_p. rewrite accepted_fail by discriminate. rewrite txs_fail. now rewrite app_nil_r.
+  - inversion H; subst. cbn. now rewrite app_nil_r.
+Qed.
+
+(* ---- histories ---- *)
+Fixpoint push_run (s : push) (ops : list pop) : push * list (pop * push * list pout) :=
+  match ops with
+  | [] => (s, [])
+  | o :: r => let (s1, outs) := push_step s o in
+              let (s2, tr) := push_run s1 r in (s2, (o, s, outs) :: tr)
+  end.
+Fixpoint ops_ok (s : push) (ops : list pop) : Prop :=
+  match ops with
+  | [] => True
+  | o :: r => op_ok s o /\ ops_ok (fst (push_step s o)) r
+  end.
+Fixpoint tr_accepted (tr : list (pop * push * list pout)) : list pmsg :=
+  match tr with [] => [] | (o, s, outs) :: r => accepted s o outs ++ arrived o ++ tr_accepted r end.
+Fixpoint tr_out (tr : list (pop * push * list pout)) : list pmsg :=
+  match tr with [] => [] | (o, s, outs) :: r => wire s o ++ freed outs ++ tr_out r end.
+
+Lemma push_init_inv : PInv push_init /\ WInv push_init.
+Proof.
+  split; [|reflexivity]. unfold PInv, aq_nodup, push_init. simp_p. cbn.
+  repeat split; auto; try constructor; try congruence; tauto.
+Qed.
+
+(* every well-formed history conserves messages: what the socket owned plus what
+   it accepted (or received) equals what it still owns plus what the transports
+   took plus what it freed; and the poll descriptor mirrors acceptability throughout *)
+Theorem push_run_law ops : forall s, PInv s -> WInv s -> ops_ok s ops ->
+  let (s', tr) := push_run s ops in
+  PInv s' /\ WInv s' /\ forall x, cnt x (owned s ++ tr_accepted tr) = cnt x (owned s' ++ tr_out tr).
+Proof.
+  induction ops as [|o r IH]; intros s HI HW Hok; cbn [push_run].
+  - split; [exact HI|]. split; [exact HW|]. intros x. cbn [tr_accepted tr_out]. now rewrite !app_nil_r.
+  - cbn [ops_ok] in Hok. destruct Hok as [Ho Hr].
+    destruct (push_step s o) as [s1 outs] eqn:S. cbn [fst] in Hr.
+    destruct (push_step_law _ _ _ _ HI Ho S) as [HI1 L].
+    pose proof (push_writable_mirror _ _ _ _ HI HW S) as HW1.
+    specialize (IH s1 HI1 HW1 Hr). destruct (push_run s1 r) as [s2 tr].
+    destruct IH as (A & B & C). split; [exact A|]. split; [exact B|]. intros x. cbn [tr_accepted tr_out].
+    specialize (L x). specialize (C x). cnt_simp. lia.
 Qed.
